@@ -97,6 +97,13 @@ func buildC05FuncCases() []*Expr {
 			out = append(out, CallE(nil, "Floor", TFloat, reflect.Float64, Bin("/", TFloat, LitI(a), LitI(b))))
 		}
 	}
+	// variadic ...interface{}: arguments arrive one by one, a slice or JSON array is one argument
+	out = append(out,
+		CallE(tool(), "NArgs", TInt, reflect.Int64, VarE(P("J.arr"), TAny, reflect.Slice)),
+		CallE(tool(), "NArgs", TInt, reflect.Int64, VarE(P("J.arr"), TAny, reflect.Slice), LitI(1)),
+		CallE(tool(), "NArgs", TInt, reflect.Int64, LitI(1), LitS("a"), LitB(true)),
+		CallE(tool(), "NArgs", TInt, reflect.Int64),
+		CallE(tool(), "NArgs", TInt, reflect.Int64, VarE(P("J.obj"), TAny, reflect.Map)))
 	return out
 }
 
